@@ -205,6 +205,22 @@ def r2_include_order(ctx):
                 conds = [a for s_, a in g_.guard_atoms(w.site.b) if a and a[0] in ('bool', 'cmp') and (w.form != 'loop' or s_ in g_.loops().get(w.anchor, ()))]
                 ctx.check(w.exhaustive and not conds, 'include-reaches-every-module',
                           'include_cfg offers the new configuration to every existing module, unconditionally', w.site.where(), [show_atom(a) for a in conds][:4])
+    # a configuration is registered through include_cfg alone (with_cfg and friends delegate): a second writer of the kept list that
+    # only stores would leave the modules that already exist without it
+    if inc:
+        scope_keys = {g_.key for g_ in [inc] + P.closures_of(inc)}
+        grow = []
+        for g_ in P.fn_list:
+            if not g_.key.startswith(('des::net::', '<des::net::')) or g_.kind == 'promoted':
+                continue
+            for c in g_.calls():
+                if c.name.split('::')[-1] in ('push', 'extend', 'insert', 'append', 'extend_from_slice') and 'Vec' in c.name and c.args and \
+                        any(x[0] == 'field' and x[2] == 'cfgs' and str(x[3] if len(x) > 3 else '').endswith('SimBuilder') for x in walk(g_.expr_operand(c.args[0], c.b, 'T'))):
+                    grow.append(c)
+        ctx.floor('sites that grow the kept configurations', len(grow), 1)
+        for c in grow:
+            ctx.check(c.fn.key in scope_keys or (c.fn.root or '') in scope_keys, 'cfg-registered-by-include-only:%s' % c.fn.key.split('::')[-1],
+                      'configurations are added to the kept list by include_cfg alone (which also applies them to the existing modules)', c.where())
     for k in ('des::net::runtime::SimBuilder::raw', 'des::net::ndl::raw_ndl'):
         h = P.fns.get(k)
         if h:
